@@ -18,19 +18,37 @@ LEVEL_TEXT = ('Partial. Coq theorems over R: (a) on the kernels regenerated from
               'AL gradient, second-order update): after every outer iteration in which the first-order update runs lam >= 0 componentwise, '
               'kappa componentwise non-decreasing when penalty_scaling >= 1 and kappa >= 0, every normal return passes the termination '
               'test hence is an approximate KKT point in the min form with explicit constants; use_newton_only never returns. '
+              'The three state-update statements of solve_sub_step (lam <- max(lam-kappa*c,0); poorProgress; kappa.at[poor].set(ps*kappa[poor])) '
+              'are kernels REGENERATED from AlSolver.py (statement extraction, elementwise reading) which the hand model calls: closed forms, '
+              'lam >= 0 and kappa monotone are proved on the generated code, and every sub-step of the model is exactly these statements per '
+              'constraint (penalties untouched when the sub-solver failed). Bound-constrained front end: initial multipliers (generated clip) >= 0, '
+              'initial penalties 0.25; hand model bc_solve (reset_kappa, scaling in, invScaling out, get_multipliers = lam*scaling): every normal '
+              'return has lam >= 0, get_multipliers >= 0, 0 < kappa0 <= kappa componentwise and passed the termination test; bc_solve is tied by '
+              'checks on real bound_constrained_solve runs and the control-flow IR only (no executed trace correspondence for this thin wrapper). '
               '(c) exact KKT + convex objective + concave constraints => global constrained minimiser (unique if strictly convex), and the '
               'quantitative version: a tol-KKT point of a mu-strongly convex problem is within (eg + sqrt(eg^2 + 4 mu (S+Vi)))/(2 mu) of the '
-              'minimiser (abstract first-order form). Not proved: convergence. The model is tied to the code by a '
+              'minimiser (abstract first-order form). (d) by computation over ALL paths of the control-flow IR regenerated from the ASTs of '
+              'augmented_lagrange_solve and bound_constrained_solve: objective.p := p (the parameters of THIS call) exactly once, after any warm '
+              'start and before the first sub-problem solve, no other store to .p, for every combination of useWarmStart / updatePrecond / '
+              'updatePrecondBeforeWarmStart -- so the oracles of (b) are those of the problem that was asked for. '
+              'Not proved: convergence. The model is tied to the code by a '
               'trace correspondence with scripted oracles; the conclusions are also evaluated on real end-to-end solves (incl. the '
-              'bound-constrained front end) and against an independent active-set enumeration for convex QPs.')
+              'bound-constrained front end) and against an independent active-set enumeration for convex QPs, including load-stepping histories '
+              '(several successive solves on one objective with changing parameters, all flag combinations, each return judged against the '
+              'parameters of that call).')
 TECHNIQUE = 'Coq proof (Reals + Coquelicot) over regenerated kernels and a hand state-machine model; vm_compute/PrimFloat trace correspondence'
-GEN = ['ConstrainedObjective']
-TARGETS = ['proofs/L_C04.vo', 'model/M_C04_AL.vo']
-COQ_FILES = ['base/Num.v', 'base/Piecewise.v', 'model/M_C04_AL.v', 'proofs/L_C04.v', 'props/P_C04.v']
+GEN = ['ConstrainedObjective', 'AlSolver', 'BoundConstrainedObjective', 'CFG_drivers']
+TARGETS = ['proofs/L_C04.vo', 'model/M_C04_AL.vo', 'proofs/L_C04_CFG.vo', 'proofs/L_C04_Upd.vo']
+COQ_FILES = ['base/Num.v', 'base/Piecewise.v', 'model/M_C04_AL.v', 'model/M_C19_CFG.v', 'proofs/L_C04.v', 'proofs/L_C04_CFG.v', 'proofs/L_C04_Upd.v', 'props/P_C04.v']
 TRUSTED = ['Coq 8.16.1 kernel + vm_compute (no native_compute)',
            'tools/vlib/py2coq.py translator (fischer_burmeister, fischer_burmeister_jac_l, nested f of create_augmented_lagrangian with objective/constraint as oracles), cross-checked at binary64 against the implementation',
+           'statement extraction of py2coq (extract= with attrs/lens/masked_set rewrites: obj.field -> local name, len(v) -> scalar parameter, '
+           'X.at[M].set(V) -> where(M, V, X)) and the ELEMENTWISE reading of the vectorised update statements of solve_sub_step; checked through the '
+           'trace correspondence (the model calling these kernels reproduces lam, kappa and the grown entries of real solve_sub_step runs)',
            'hand model model/M_C04_AL.v of the outer loop, tied by the scripted-oracle trace correspondence (event sequence exact; floats rtol 1e-9)',
            'harness-side sksparse shim (dense Cholesky) as preconditioner; harness-side replacement of AlSolver.linear_update and of the sub_problem_solver argument by logging/scripted wrappers in the L1 runs',
+           'tools/vlib/extract_drivers.py (AST -> control-flow IR of augmented_lagrange_solve / bound_constrained_solve, fail closed) and the path '
+           'semantics of model/M_C19_CFG.v (conditions independent, loops 0/1/2 passes); cross-checked by the load-stepping conclusion stream',
            'theorems are over exact reals; binary64 rounding is covered only by the correspondence']
 ASSUMPTIONS = ['exact real arithmetic in theorems',
                'oracles (sub-problem solver, constraint, grad_x of the AL function, linear_update) are arbitrary functions of the call site and the state',
@@ -40,8 +58,11 @@ ASSUMPTIONS = ['exact real arithmetic in theorems',
 RULE = ('L1: seeded problems (2-4 unknowns, 1-4 linear constraints) run through the real augmented_lagrange_solve with a scripted '
         'sub_problem_solver (real trust-region result, real result plus noise, or arbitrary points; arbitrary success flags) and a scripted or '
         'real linear_update; a case is distinct by its event-kind sequence and non-trivial when it contains a penalty growth, a rejected '
-        'line-search step or a normal return.  L2: seeded end-to-end solves, distinct by (family, sizes, active-set pattern, settings).')
-IMPORTS = ['From OV.gen Require Import Gen_ConstrainedObjective.', 'From OV.model Require Import M_C04_AL.']
+        'line-search step or a normal return.  L2: seeded end-to-end solves, distinct by (family, sizes, active-set pattern, settings); '
+        'load-stepping histories of 3-4 calls on one ConstrainedObjective / BoundConstrainedObjective with parameters (load, constraint shift) '
+        'changing at every call, the flag combinations of the later calls cycling through all of useWarmStart x updatePrecond x '
+        'updatePrecondBeforeWarmStart; a step is distinct by (front end, family, flags, active set) and counts only when it returned.')
+IMPORTS = ['From OV.gen Require Import Gen_ConstrainedObjective Gen_AlSolver Gen_BoundConstrainedObjective.', 'From OV.model Require Import M_C04_AL.']
 
 SQ = 2.0 - math.sqrt(2.0)
 
@@ -256,6 +277,64 @@ def run_e2e(spec):
     return dict(status=status, bad=bad, info=info)
 
 
+def judge_bound(M, obj, f, p, x, idx, tol, qp):
+    """conclusions for one normal return of bound_constrained_solve, judged against the parameters p of THAT call;
+    qp = (Q, q) when f(., p) is the quadratic 1/2 x'Qx + q'x (exact minimiser by active-set enumeration), else None"""
+    jax, jnp, onp = M['jax'], M['jnp'], M['onp']
+    n = int(onp.array(x).shape[0])
+    bad, info = [], {}
+    # KKT in the scaled variables the solver works in: xBar = scaling*x, constraints xBar[idx] >= 0
+    sc, isc = obj.scaling, obj.invScaling
+    fbar = lambda xb, pp: f(isc * xb, pp)
+    cbar = lambda xb, pp: xb[jnp.array(idx)]
+    b2, rep = kkt_report(M, fbar, cbar, p, sc * x, obj.lam, obj.kappa, obj.constraintKappa, tol)
+    bad += b2
+    info.update(rep)
+    mult = onp.array(obj.get_multipliers())
+    if not onp.all(mult >= 0):
+        bad.append('get_multipliers() negative')
+    # the front end's own view, in ORIGINAL variables: scaling and invScaling are inverse to each other on every dof,
+    # get_multipliers() are the multipliers of x[idx] >= 0 for f itself (independent Lagrangian gradient), and the
+    # termination test evaluated through get_total_residual at the returned x holds
+    sca, isca = onp.array(sc) * onp.ones(n), onp.array(isc) * onp.ones(n)
+    if not onp.allclose(sca * isca, 1.0, rtol=1e-13, atol=0.0):
+        bad.append('scaling * invScaling != 1 on some dof: %r' % (sca * isca).tolist())
+    gx = onp.array(jax.grad(f)(jnp.array(x), p))
+    E = onp.zeros((len(idx), n))
+    for k_, i in enumerate(idx):
+        E[k_, i] = 1.0
+    lag = float(onp.linalg.norm(gx - E.T @ mult))
+    lim_l = float(onp.max(sca)) * rep['bound'] * 1.001 + 1e-12 * (1.0 + float(onp.linalg.norm(gx)))
+    info.update(lagr_original=lag, lagr_original_limit=lim_l)
+    if not lag <= lim_l:
+        bad.append('in original variables |grad f(x) - E^T get_multipliers()| = %r exceeds %r (max scaling x scaled KKT bound): returned multipliers are not KKT multipliers of the unscaled problem' % (lag, lim_l))
+    tr = float(onp.linalg.norm(onp.array(obj.get_total_residual(jnp.array(x)))))
+    if not tr <= tol * (1 + 1e-6) + 1e-12:
+        bad.append('get_total_residual at the returned point is %r, not below tol = %g' % (tr, tol))
+    xo = onp.array(x)[idx]
+    if not onp.all(xo >= -(tol / onp.array(obj.constraintKappa)) / sca[idx] - 1e-15):
+        bad.append('returned x violates a bound beyond tol/(kappa0*scaling): min x[idx] = %r' % float(xo.min()))
+    if qp is not None:
+        Q, q = qp
+        A = onp.zeros((len(idx), n))
+        for k_, i in enumerate(idx):
+            A[k_, i] = 1.0
+        ref = qp_active_set(Q, q, A, onp.zeros(len(idx)))
+        if ref is not None:
+            dist = float(onp.linalg.norm(onp.array(x) - ref[0]))
+            # proved bound in the scaled variables the solver works in (objective x'D^-1 Q D^-1 x / 2, multipliers lam*/scaling)
+            Dm = onp.diag(onp.array(isc) * onp.ones(n))
+            mub = float(onp.linalg.eigvalsh(Dm @ Q @ Dm)[0])
+            xb = onp.array(sc * x)
+            lim0, S_, Vi_ = near_min_bound(mub, rep['bound'], tol, [float(xb[i]) for i in idx], [float(a) for a in onp.array(obj.lam)],
+                                           [float(a) for a in onp.array(obj.constraintKappa)], [float(ref[2][k_] / (onp.array(sc) * onp.ones(n))[i]) for k_, i in enumerate(idx)])
+            lim = float(onp.max(onp.array(isc))) * lim0 * (1 + 1e-6) + 1e-13 * (1.0 + float(onp.linalg.norm(ref[0])))
+            info.update(dist_to_reference=dist, dist_limit=lim)
+            if not dist <= lim:
+                bad.append('bound-constrained solution differs from the active-set reference by %r, more than the proved bound %g' % (dist, lim))
+    return bad, info
+
+
 def run_bound(spec):
     """bound-constrained front end: min f(x) s.t. x[idx] >= 0 through BoundConstrainedObjective / bound_constrained_solve"""
     M = mods()
@@ -286,12 +365,17 @@ def run_bound(spec):
     with quiet():
         obj = M['BCO'].BoundConstrainedObjective(f, x0, p, jnp.array(idx), constraintStiffnessScaling=spec.get('css', 1.0),
                                                  precondStrategy=Strat() if spec.get('scaled', True) else None)
-        lam_init = onp.array(obj.lam)
+        lam_init, kap_init = onp.array(obj.lam), onp.array(obj.kappa)
+        g0 = onp.array((jax.grad(f)(x0, p) * obj.invScaling)[jnp.array(idx)])     # what __init__ clips: (grad f(x0) * invScaling)[idx]
         als = Al.get_settings(tol=tol, max_al_iters=60, use_second_order_update=spec.get('second', True))
         subs = Eq.get_settings(tol=0.05 * tol, max_trust_iters=400)
+        xbars = []
+        # penalties left over from an earlier solve must be reset by the front end (reset_kappa): start from grown penalties
+        obj.kappa = obj.kappa * 8.0
 
         def cb(x, pp):
             obs.append((onp.array(obj.lam), onp.array(obj.kappa)))
+            xbars.append(onp.array(x))
         try:
             x = M['BCS'].bound_constrained_solve(obj, x0, p, als, subs, callback=cb, useWarmStart=False)
             status = 'returned'
@@ -301,62 +385,171 @@ def run_bound(spec):
             status = 'error:' + type(ex).__name__
     if not onp.all(lam_init >= 0):
         bad.append('initial multipliers of BoundConstrainedObjective negative')
+    # the front-end model (bc_initial_lam / bc_initial_kappa / bc_solve of model/M_C04_AL.v) against the implementation
+    tie = []
+    if not (onp.array_equal(lam_init, onp.maximum(g0, 0.0)) and onp.all(kap_init == 0.25)):
+        tie.append('initial state of BoundConstrainedObjective is not (max(grad*invScaling, 0)[idx], 0.25): lam %r kappa %r' % (lam_init.tolist(), kap_init.tolist()))
+    if obs and not onp.array_equal(obs[0][1], onp.array(obj.constraintKappa)):
+        tie.append('bound_constrained_solve did not start from kappa = constraintKappa (reset_kappa): %r' % obs[0][1].tolist())
+    if status == 'returned':
+        if not (xbars and onp.allclose(onp.array(x), onp.array(obj.invScaling) * xbars[-1], rtol=1e-15, atol=0.0)):
+            tie.append('returned point is not invScaling * (last scaled iterate shown to the callback)')
+        if not onp.allclose(onp.array(obj.get_multipliers()), onp.array(obj.lam) * onp.array(obj.scaling * jnp.ones(n))[idx], rtol=1e-15, atol=0.0):
+            tie.append('get_multipliers() is not lam * scaling[constrainedIndices]')
+        if not onp.all(onp.array(obj.kappa) >= onp.array(obj.constraintKappa)):
+            tie.append('a penalty parameter is below constraintKappa at the return of bound_constrained_solve')
     for k, (lam, kap) in enumerate(obs):
         if not onp.all(lam >= 0.0):
             bad.append('negative multiplier at callback %d' % k)
         if k >= 1 and not onp.all(kap >= obs[k - 1][1]):
             bad.append('penalty parameter decreased in outer iteration %d' % (k - 1))
-    info = dict(status=status, outer_iterations=max(len(obs) - 1, 0), idx=idx)
+    info = dict(status=status, outer_iterations=max(len(obs) - 1, 0), idx=idx, init=([float(a) for a in g0], [float(a) for a in lam_init]))
     if status == 'returned':
-        # KKT in the scaled variables the solver works in: xBar = scaling*x, constraints xBar[idx] >= 0
-        sc, isc = obj.scaling, obj.invScaling
-        fbar = lambda xb, pp: f(isc * xb, pp)
-        cbar = lambda xb, pp: xb[jnp.array(idx)]
-        b2, rep = kkt_report(M, fbar, cbar, p, sc * x, obj.lam, obj.kappa, obj.constraintKappa, tol)
+        b2, inf2 = judge_bound(M, obj, f, p, x, idx, tol, None if quartic else (Q, q))
         bad += b2
-        info.update(rep)
-        mult = onp.array(obj.get_multipliers())
-        if not onp.all(mult >= 0):
-            bad.append('get_multipliers() negative')
-        # the front end's own view, in ORIGINAL variables: scaling and invScaling are inverse to each other on every dof,
-        # get_multipliers() are the multipliers of x[idx] >= 0 for f itself (independent Lagrangian gradient), and the
-        # termination test evaluated through get_total_residual at the returned x holds
-        sca, isca = onp.array(sc) * onp.ones(n), onp.array(isc) * onp.ones(n)
-        if not onp.allclose(sca * isca, 1.0, rtol=1e-13, atol=0.0):
-            bad.append('scaling * invScaling != 1 on some dof: %r' % (sca * isca).tolist())
-        gx = onp.array(jax.grad(f)(jnp.array(x), p))
-        E = onp.zeros((len(idx), n))
+        info.update(inf2)
+    return dict(status=status, bad=bad, tie=tie, info=info)
+
+
+FLAG_COMBOS = [(ws, up, ub) for ws in (False, True) for up in (False, True) for ub in (False, True)]
+
+
+def run_steps(spec):
+    """load stepping: several successive solves on ONE constrained objective with parameters p that change from call to call, under
+    every combination of useWarmStart / updatePrecond / updatePrecondBeforeWarmStart.  Each normal return is judged against the
+    parameters passed to THAT call, independently of the state held on the objective: KKT residual recomputed from p with jax.grad of
+    the user functions, and the exact minimiser (active-set enumeration) for the strictly convex QP family.
+    spec: dict(kind='steps', front='al'|'bound', family='qp'|'exp', n, m, seed, second, flags=[[ws, up, ub], ...])
+    f(x, p) = 1/2 x'Qx + (q - load).x [+ smooth convex term],  c(x, p) = A x - b - shift  (front 'al'),  x[idx] >= 0 (front 'bound'),
+    p = Params(bc_data = [load, shift])"""
+    M = mods()
+    jax, jnp, onp, Al, Eq, CO = M['jax'], M['jnp'], M['onp'], M['Al'], M['Eq'], M['CO']
+    from optimism import Objective
+    from scipy.sparse import csc_matrix, diags
+    r = random.Random(spec['seed'])
+    n, m, front, fam = spec['n'], spec['m'], spec['front'], spec['family']
+    G = onp.array([[r.uniform(-1, 1) for _ in range(n)] for _ in range(n)])
+    Q = G @ G.T + onp.diag([10.0 ** r.uniform(-0.5, 1) for _ in range(n)])
+    xu = onp.array([r.uniform(-2, 2) for _ in range(n)])
+    q = -Q @ xu
+    Qj, qj = jnp.array(Q), jnp.array(q)
+    d = jnp.array([r.uniform(0.2, 1.0) for _ in range(n)])
+    extra = (lambda x: jnp.sum(jnp.exp(d * x)) + jnp.sum(jnp.log(jnp.cosh(x)))) if fam == 'exp' else (lambda x: 0.0)
+    f = lambda x, p: 0.5 * x @ Qj @ x + qj @ x - p[0][:n] @ x + extra(x)
+    if front == 'al':
+        A = onp.array([[r.uniform(-1, 1) for _ in range(n)] for _ in range(m)])
+        A /= onp.linalg.norm(A, axis=1, keepdims=True)
+        b = A @ xu + onp.array([r.choice([r.uniform(0.2, 1.5), 0.0, -r.uniform(0.3, 1.0)]) for _ in range(m)])
+        Aj, bj = jnp.array(A), jnp.array(b)
+        c = lambda x, p: Aj @ x - bj - p[0][n:]
+        idx = None
+    else:
+        idx = sorted(r.sample(range(n), m))
+        A, b = onp.zeros((m, n)), onp.zeros(m)
         for k_, i in enumerate(idx):
-            E[k_, i] = 1.0
-        lag = float(onp.linalg.norm(gx - E.T @ mult))
-        lim_l = float(onp.max(sca)) * rep['bound'] * 1.001 + 1e-12 * (1.0 + float(onp.linalg.norm(gx)))
-        info.update(lagr_original=lag, lagr_original_limit=lim_l)
-        if not lag <= lim_l:
-            bad.append('in original variables |grad f(x) - E^T get_multipliers()| = %r exceeds %r (max scaling x scaled KKT bound): returned multipliers are not KKT multipliers of the unscaled problem' % (lag, lim_l))
-        tr = float(onp.linalg.norm(onp.array(obj.get_total_residual(jnp.array(x)))))
-        if not tr <= tol * (1 + 1e-6) + 1e-12:
-            bad.append('get_total_residual at the returned point is %r, not below tol = %g' % (tr, tol))
-        xo = onp.array(x)[idx]
-        if not onp.all(xo >= -(tol / onp.array(obj.constraintKappa)) / sca[idx] - 1e-15):
-            bad.append('returned x violates a bound beyond tol/(kappa0*scaling): min x[idx] = %r' % float(xo.min()))
-        if not quartic:
-            A = onp.zeros((len(idx), n))
-            for k_, i in enumerate(idx):
-                A[k_, i] = 1.0
-            ref = qp_active_set(Q, q, A, onp.zeros(len(idx)))
-            if ref is not None:
-                dist = float(onp.linalg.norm(onp.array(x) - ref[0]))
-                # proved bound in the scaled variables the solver works in (objective x'D^-1 Q D^-1 x / 2, multipliers lam*/scaling)
-                Dm = onp.diag(onp.array(isc) * onp.ones(n))
-                mub = float(onp.linalg.eigvalsh(Dm @ Q @ Dm)[0])
-                xb = onp.array(sc * x)
-                lim0, S_, Vi_ = near_min_bound(mub, rep['bound'], tol, [float(xb[i]) for i in idx], [float(a) for a in onp.array(obj.lam)],
-                                               [float(a) for a in onp.array(obj.constraintKappa)], [float(ref[2][k_] / (onp.array(sc) * onp.ones(n))[i]) for k_, i in enumerate(idx)])
-                lim = float(onp.max(onp.array(isc))) * lim0 * (1 + 1e-6) + 1e-13 * (1.0 + float(onp.linalg.norm(ref[0])))
-                info.update(dist_to_reference=dist, dist_limit=lim)
-                if not dist <= lim:
-                    bad.append('bound-constrained solution differs from the active-set reference by %r, more than the proved bound %g' % (dist, lim))
-    return dict(status=status, bad=bad, info=info)
+            A[k_, i] = 1.0
+        c = None
+
+    def params(k):
+        load = onp.array([r.gauss(0, 1.0) for _ in range(n)]) * (0.0 if k == 0 else 1.0)
+        shift = onp.array([r.gauss(0, 0.3) for _ in range(m)]) * (1.0 if (k > 0 and front == 'al') else 0.0)
+        return load, shift, Objective.Params(bc_data=jnp.array(onp.concatenate([load, shift])))
+
+    class Strat:
+        def initialize(self, x, p):
+            self.K = csc_matrix(onp.array(jax.hessian(f)(jnp.array(x), p)))
+
+        def precond_at_attempt(self, attempt):
+            return self.K if attempt == 0 else self.K + diags(10.0 ** (-5 + attempt) * onp.abs(self.K.diagonal()), 0, format='csc')
+    tol = spec.get('tol', 1e-8)
+    als = Al.get_settings(tol=tol, max_al_iters=60, use_second_order_update=spec.get('second', True))
+    subs = Eq.get_settings(tol=0.05 * tol, max_trust_iters=400)
+    load0, shift0, p0 = params(0)
+    x = jnp.array([abs(r.uniform(0.1, 1)) for _ in range(n)]) if front == 'bound' else jnp.array(xu + onp.array([r.uniform(-1, 1) for _ in range(n)]))
+    bad, steps = [], []
+    with quiet():
+        if front == 'al':
+            kappa0 = jnp.array([10.0 ** r.uniform(-0.5, 0.5) for _ in range(m)])
+            obj = CO.ConstrainedObjective(f, c, x, p0, jnp.zeros(m), kappa0)
+        else:
+            obj = M['BCO'].BoundConstrainedObjective(f, x, p0, jnp.array(idx), constraintStiffnessScaling=spec.get('css', 1.0), precondStrategy=Strat())
+            kappa0 = obj.constraintKappa
+    for k, (ws, up, ub) in enumerate(spec['flags']):
+        load, shift, p = (load0, shift0, p0) if k == 0 else params(k)
+        obs = []
+
+        def cb(xx, pp):
+            obs.append((onp.array(obj.lam), onp.array(obj.kappa)))
+        with quiet():
+            try:
+                if front == 'al':
+                    x1 = Al.augmented_lagrange_solve(obj, jnp.array(x), p, als, subs, callback=cb, useWarmStart=ws, updatePrecond=up,
+                                                     updatePrecondBeforeWarmStart=ub)
+                else:
+                    x1 = M['BCS'].bound_constrained_solve(obj, jnp.array(x), p, als, subs, callback=cb, useWarmStart=ws, updatePrecond=up)
+                status = 'returned'
+            except NameError:
+                status = 'not-converged'
+            except Exception as ex:          # a crash of a sub-component (GMRES / Cholesky / CG) is not a normal return
+                status = 'error:' + type(ex).__name__
+        tag = 'step %d (useWarmStart=%s, updatePrecond=%s%s)' % (k, ws, up, ', updatePrecondBeforeWarmStart=%s' % ub if front == 'al' else '')
+        rec = dict(step=k, flags=[ws, up, ub], status=status, outer_iterations=max(len(obs) - 1, 0))
+        for j, (lam, kap) in enumerate(obs):
+            if j >= 1 and not onp.all(lam >= 0.0):
+                bad.append('%s: negative multiplier after outer iteration %d' % (tag, j - 1))
+            if j >= 1 and not onp.all(kap >= obs[j - 1][1]):
+                bad.append('%s: penalty parameter decreased in outer iteration %d' % (tag, j - 1))
+        if status == 'returned':
+            x = x1
+            # the parameters of THIS call are what the objective must hold afterwards (state clause shared with C19)
+            held = obj.p[0] if obj.p is not None else None
+            if held is None or not onp.array_equal(onp.array(held), onp.array(p[0])):
+                bad.append('%s: after the call the objective does not hold the parameters that were passed (objective.p is stale)' % tag)
+            qe = q - load
+            if front == 'al':
+                b2, rep = kkt_report(M, f, c, p, x, obj.lam, obj.kappa, kappa0, tol)
+                if fam == 'qp':
+                    ref = qp_active_set(Q, qe, A, b + shift)
+                    if ref is not None:
+                        mu = float(onp.linalg.eigvalsh(Q)[0])
+                        dist = float(onp.linalg.norm(onp.array(x) - ref[0]))
+                        cv = [float(a) for a in onp.array(c(jnp.array(x), p))]
+                        lim0, S_, Vi_ = near_min_bound(mu, rep['bound'], tol, cv, [float(a) for a in onp.array(obj.lam)], [float(a) for a in onp.array(kappa0)], ref[2])
+                        lim = lim0 * (1 + 1e-6) + 1e-13 * (1.0 + float(onp.linalg.norm(ref[0])))
+                        rep.update(dist_to_reference=dist, dist_limit=lim)
+                        if not dist <= lim:
+                            b2.append('returned point differs from the minimiser of the problem posed with the parameters of this call (active-set reference) by %r, more than the proved bound %g for a tol-KKT point' % (dist, lim))
+            else:
+                b2, rep = judge_bound(M, obj, f, p, x, idx, tol, (Q, qe) if fam == 'qp' else None)
+            bad += ['%s: %s' % (tag, t) for t in b2]
+            rec.update({kk: rep[kk] for kk in ('lagr', 'bound', 'max_comp', 'dist_to_reference', 'dist_limit', 'active') if kk in rep})
+        steps.append(rec)
+    nret = sum(1 for s_ in steps if s_['status'] == 'returned')
+    return dict(status='returned' if nret == len(steps) else ('partly-returned' if nret else steps[-1]['status']), bad=bad,
+                info=dict(status='%d/%d steps returned' % (nret, len(steps)), steps=steps, outer_iterations=sum(s_['outer_iterations'] for s_ in steps),
+                          active=steps[-1].get('active', [])))
+
+
+def step_specs(ctx, stream, count):
+    """histories of 3-4 calls; step 0 uses the constructor's parameters; the flag combinations of the later steps cycle through all
+    of FLAG_COMBOS (shuffled per run) so that every combination occurs, on both front ends"""
+    r = ctx.rng(stream)
+    cyc = {'al': list(FLAG_COMBOS), 'bound': [(ws, up, True) for ws in (False, True) for up in (False, True)]}   # bound front end has no third flag
+    pos = {'al': 0, 'bound': 0}
+    for v in cyc.values():
+        r.shuffle(v)
+    out = []
+    for k in range(count):
+        front = 'al' if k % 3 != 2 else 'bound'
+        n = r.choice([2, 3, 4]) if ctx.tier != 'thorough' else r.choice([2, 3, 5, 6])
+        nsteps = r.choice([3, 4])
+        flags = [[r.random() < 0.5, True, True]]       # the first call must factorise the preconditioner (before any warm start)
+        for _ in range(nsteps - 1):
+            flags.append(list(cyc[front][pos[front] % len(cyc[front])]))
+            pos[front] += 1
+        out.append(dict(kind='steps', front=front, family='qp' if k % 4 != 3 else 'exp', n=n, m=r.randrange(1, n + 1), seed=r.randrange(1 << 30),
+                        second=r.random() < 0.5, css=r.choice([1.0, 0.5, 3.0]), flags=flags))
+    return out
 
 
 def e2e_specs(ctx, stream, count):
@@ -384,7 +577,7 @@ def bound_specs(ctx, stream, count):
 
 
 def run_spec(spec):
-    return run_bound(spec) if spec['kind'] == 'bound' else run_e2e(spec)
+    return run_bound(spec) if spec['kind'] == 'bound' else run_steps(spec) if spec['kind'] == 'steps' else run_e2e(spec)
 
 
 # ============================================================================ L1: scripted-oracle trace correspondence
@@ -459,6 +652,7 @@ class Recorder:
         self.ls_k = 0
         self.last_ncp = None
         self.subtol_seen = None
+        self.final_c = self.final_g = None
 
     def text(self):
         t = self.buf.getvalue()
@@ -582,9 +776,16 @@ class Recorder:
                                                     sub_problem_solver=sub_solver, useWarmStart=False, updatePrecond=False)
                     self.flush()
                     out = ('ret', onp.array(x), onp.array(obj.lam), onp.array(obj.kappa))
+                    # what the conclusion is judged on: constraint and grad_x AL re-evaluated at the returned point with the
+                    # returned multipliers (independent of which evaluations the loop itself made and the recorder saw)
+                    self.final_c = onp.array(o_con(x))
+                    self.final_g = onp.array(o_res(x))[:self.n]
                 except NameError:
                     self.flush()
                     out = ('nc', None, onp.array(obj.lam), onp.array(obj.kappa))
+                except Exception as ex:      # anything else is not an exit of the modelled loop: reported as a broken correspondence
+                    self.flush()
+                    out = ('err', None, onp.array(obj.lam), onp.array(obj.kappa), '%s: %s' % (type(ex).__name__, str(ex)[:200]))
         finally:
             Al.linear_update = o_lin
             del obj.constraint, obj.total_residual, obj.ncp, obj.update_precond
@@ -854,10 +1055,7 @@ def l1_conclusion(case, rec, out):
             prevk = e[4]
     if out[0] == 'ret':
         tol = case['settings']['tol']
-        last = [e for e in rec.events if e[0] == 'after'][-1]
-        it = last[1]
-        g = rec.grads[(it, 'Sub')]
-        c = rec.cons[(it, 'Sub')]
+        g, c = rec.final_g, rec.final_c
         lam = out[2]
         gn = math.sqrt(sum(float(a) ** 2 for a in g))
         if not gn < tol:
@@ -869,6 +1067,25 @@ def l1_conclusion(case, rec, out):
                 bad.append('returned with (c, lam, kappa0) = %r: violates kappa0*c > -tol, lam >= 0, min(kappa0*c, lam) <= tol/(2-sqrt2) (tol %g)' % ((ci, li, ki), tol))
                 break
     return bad
+
+
+def l1_missing(case, rec, out):
+    """oracle evaluations / events that the model's loop makes in every outer iteration it runs but the recorder did not see on the
+    implementation (a discrepancy between AlSolver and the model in its own right; never a crash of the harness)"""
+    miss = []
+    if out[0] == 'err':
+        miss.append('augmented_lagrange_solve left through an exception that is not an exit of the modelled loop: %s' % out[4])
+    its = sorted(set(e[1] for e in rec.events if e[0] == 'sub'))
+    afters = set(e[1] for e in rec.events if e[0] == 'after')
+    for it in its:
+        if (it, 'Sub') not in rec.cons:
+            miss.append('outer iteration %d: the constraint was not evaluated after the sub-problem solve (no multiplier update can have happened)' % it)
+        if it not in afters or (it, 'Sub') not in rec.grads:
+            if not (out[0] == 'err' and it == its[-1]):
+                miss.append('outer iteration %d: total_residual was not evaluated after the sub-step' % it)
+    if out[0] == 'ret' and not afters:
+        miss.append('normal return without any sub-step / termination test being observed')
+    return miss
 
 
 def kernel_cases(ctx):
@@ -897,22 +1114,39 @@ def correspondence(ctx, model_ok):
     jax, jnp, onp = M['jax'], M['jnp'], M['onp']
     distinct = set()
     # ---------------- L2: real end-to-end solves, theorem conclusions on the implementation's outputs
-    specs = e2e_specs(ctx, 'e2e', ctx.n(8, 60)) + bound_specs(ctx, 'bound', ctx.n(6, 24))
-    statuses = {}
+    specs = e2e_specs(ctx, 'e2e', ctx.n(8, 60)) + bound_specs(ctx, 'bound', ctx.n(6, 24)) + step_specs(ctx, 'steps', ctx.n(6, 30))
+    statuses, step_hist = {}, {}
+    bc_inits = []
     for spec in specs:
         res = run_spec(spec)
+        if spec['kind'] == 'bound':
+            bc_inits.append(res['info']['init'])
         ctx.count('evaluations')
-        ctx.count('e2e_solves')
+        ctx.count('e2e_solves', len(spec['flags']) if spec['kind'] == 'steps' else 1)
+        if spec['kind'] == 'steps':
+            # load-stepping stream: distribution of (front end, useWarmStart, updatePrecond, updatePrecondBeforeWarmStart, outcome) over the
+            # calls that followed a parameter change
+            ctx.count('load_step_histories')
+            for st_ in res['info']['steps'][1:]:
+                key = '%s ws=%d up=%d ub=%d %s' % ((spec['front'],) + tuple(int(b) for b in st_['flags']) + (st_['status'],))
+                step_hist[key] = step_hist.get(key, 0) + 1
+                ctx.count('load_steps_after_parameter_change')
+                if st_['status'] == 'returned':
+                    ctx.count('load_steps_judged_against_their_own_parameters')
+                    distinct.add(('steps', spec['front'], spec['family'], tuple(st_['flags']), tuple(st_.get('active', []))))
         st = res['status']
         statuses[st] = statuses.get(st, 0) + 1
         inf = res['info']
-        if st == 'returned':
+        if st == 'returned' and spec['kind'] != 'steps':
             distinct.add((spec['kind'], spec.get('family'), spec['n'], spec['m'], tuple(inf.get('active', [])), spec.get('second'), spec.get('ps')))
             ctx.count('outer_iterations_observed', inf['outer_iterations'])
         ctx.sample(dict(spec=spec, result={k: v for k, v in inf.items() if k in ('status', 'outer_iterations', 'lagr', 'bound', 'max_comp', 'max_product', 'dist_to_reference', 'active')}), limit=4)
         for b in res['bad']:
-            ctx.fail('conclusion', '%s solve %s: %s' % (spec['kind'], {k: spec[k] for k in ('family', 'n', 'm', 'seed') if k in spec}, b), case=spec, concrete=True)
+            ctx.fail('conclusion', '%s solve %s: %s' % (spec['kind'], {k: spec[k] for k in ('front', 'family', 'n', 'm', 'seed') if k in spec}, b), case=spec, concrete=True)
+        for b in res.get('tie', []):     # the front-end model (bc_solve / initial state) differs from the implementation
+            ctx.fail('correspondence', 'bound-constrained front end %s: %s' % ({k: spec[k] for k in ('n', 'm', 'seed') if k in spec}, b), case=spec)
     ctx.cov['e2e_status_histogram'] = statuses
+    ctx.cov['load_step_flag_histogram'] = step_hist
     # ---------------- L1a: generated kernels and the proved penalty derivative at binary64
     fb, pen, mp = kernel_cases(ctx)
     CO = M['CO']
@@ -940,7 +1174,14 @@ def correspondence(ctx, model_ok):
         ex = ['fencs [fischer_burmeister %s %s %s; fischer_burmeister_jac_l %s %s %s]' % (tuple(C.cf(a) for a in t) * 2) for t in fb]
         ex += ['fencs [al_value (fun _ _ => nzero) (fun x _ => x) %s nzero %s %s]' % (C.cf(c), C.cf(l), C.cf(k)) for (c, l, k) in pen]
         ex += ['fenc (compute_min_p %s)' % ' '.join(C.cf(a) for a in t) for t in mp]
+        nk = len(ex)
+        ex += ['fencs (bc_initial_lam %s ++ bc_initial_kappa %s)' % (cvec(g), cvec(g)) for g, _ in bc_inits]
         res = C.coq_eval(IMPORTS, ex, 'C04k', shard=400)
+        for (g, li), z in zip(bc_inits, res[nk:]):
+            v = C.dec_floats(z)
+            if v != list(li) + [0.25] * len(li):
+                mism_bc = 'model initial state of BoundConstrainedObjective %r, implementation lam %r kappa 0.25' % (v, li)
+                ctx.fail('correspondence', mism_bc, case=dict(kind='bcinit', g=g))
         mism = 0
         for i, t in enumerate(fb):
             v = C.dec_floats(res[i])
@@ -985,6 +1226,12 @@ def correspondence(ctx, model_ok):
         for b in l1_conclusion(case, rec, out):
             ctx.fail('conclusion', 'scripted history (n=%d m=%d seed=%d style=%d): %s' % (case['n'], case['m'], case['seed'], case['style'], b),
                      case=dict(kind='l1', n=case['n'], m=case['m'], seed=case['seed'], style=case['style']), concrete=True)
+        miss = l1_missing(case, rec, out)
+        if miss:
+            hist['missing_oracle_evaluations'] = hist.get('missing_oracle_evaluations', 0) + 1
+            if hist['missing_oracle_evaluations'] <= 5:
+                ctx.fail('correspondence', 'scripted history (n=%d m=%d seed=%d style=%d): %s' % (case['n'], case['m'], case['seed'], case['style'], '; '.join(miss[:3])),
+                         case=dict(kind='l1', n=case['n'], m=case['m'], seed=case['seed'], style=case['style']))
     ctx.cov['l1_history_histogram'] = hist
     if model_ok:
         exprs = [model_expr(case, rec) for case, rec, out in runs]
@@ -1019,7 +1266,7 @@ def search(ctx, reasons):
     c2 = copy.copy(ctx)
     c2.tier = 'thorough'
     c2.seed = ctx.seed + 1
-    specs = e2e_specs(c2, 'search', 40) + bound_specs(c2, 'searchb', 12)
+    specs = step_specs(c2, 'searchs', 16) + e2e_specs(c2, 'search', 40) + bound_specs(c2, 'searchb', 12)
     r = c2.rng('searchm')
     for k in range(300):
         case = dict(kind='l1', n=r.choice([2, 3]), m=r.choice([1, 2, 3]), seed=r.randrange(1 << 30), style=5)
@@ -1055,7 +1302,7 @@ def replay(ctx, path):
         bad = l1_conclusion(cs, rec, out)
         print('implementation now (AlSolver loop on the recorded scripted objective):', bad or 'conclusion holds')
         return 1 if bad else 0
-    if not case or case.get('kind') not in ('e2e', 'bound'):
+    if not case or case.get('kind') not in ('e2e', 'bound', 'steps'):
         print('no end-to-end failing input recorded (kind %r); broken obligations: %s' % ((case or {}).get('kind'), rep.get('broken')))
         return 1
     res = run_spec(case)
